@@ -271,7 +271,7 @@ func runC07(c *core.Ctx, ck *Check) {
 	cliBinPath = bin
 	defer func() { os.Remove(bin); cliBinPath = "" }()
 	evalWitnesses(c, ck)
-	rounds := c.Scale(6, 300)
+	rounds := c.Scale(8, 300)
 	type job struct {
 		e *eco.Eco
 		k int
@@ -311,6 +311,7 @@ func runC07(c *core.Ctx, ck *Check) {
 				}
 			}
 		}
+		sortedIdx := p.SortedIdx()
 		for n := 0; n < 40; n++ {
 			ln := 1 + r.IntN(6)
 			if n%4 == 3 {
@@ -320,8 +321,21 @@ func runC07(c *core.Ctx, ck *Check) {
 				ln = []int{65, 66, 67, 100, 101, 127, 129, 200, 255, 257}[r.IntN(10)]
 			}
 			list := make([]string, 0, ln)
+			// every other list is drawn from one neighbourhood of the pool's sorted order: cluster mates (same numbers,
+			// another marker / revision / spelling) are where ties and near-ties sit
+			near, at := n%2 == 1, r.IntN(len(sortedIdx))
 			for len(list) < ln {
 				s := p.Strs[r.IntN(len(p.Strs))]
+				if near {
+					k := at + r.IntN(9+ln/4) - 4 - ln/8
+					if k < 0 {
+						k = 0
+					}
+					if k >= len(sortedIdx) {
+						k = len(sortedIdx) - 1
+					}
+					s = p.Strs[sortedIdx[k]]
+				}
 				list = append(list, s)
 				if r.IntN(4) == 0 && len(list) < ln { // duplicate
 					list = append(list, s)
@@ -335,6 +349,25 @@ func runC07(c *core.Ctx, ck *Check) {
 							list = append(list, x)
 						}
 					}
+				}
+			}
+			if n%5 == 4 {
+				// one whole generator cluster (a base with all its marker / revision / spelling / snapshot relatives)
+				var cl []string
+				fam := r.IntN(2) == 0
+				for _, s := range gen.Cluster(e.Name, r) {
+					if v, err, pn := e.SafeNewVersion(s); pn == nil && err == nil && v != nil && strings.TrimSpace(s) == s && s != "" &&
+						(e.Name != "alpm" || alpmHasPkgrel(s) == fam) {
+						cl = append(cl, s)
+					}
+				}
+				r.Shuffle(len(cl), func(a, b int) { cl[a], cl[b] = cl[b], cl[a] })
+				if len(cl) > 64 {
+					cl = cl[:64]
+				}
+				if len(cl) >= 3 {
+					list = cl
+					w.Count("whole_cluster_lists", 1)
 				}
 			}
 			_, orig, ok := sortInProcess(e, list)
